@@ -151,7 +151,11 @@ def run(repo: Repo, sim: str, symbols=("AAA-USDT", "BBB-USDT"), minutes=6, timef
             g = math.gcd(g, int(x.const_value()))
         return num(g)
     it = Interp(repo, stubs=stubs, ext_stubs={"time.time": lambda i, a, k: num(0), "numpy.gcd.reduce": gcd_reduce})
-    it.overrides["jesse/config.py:config"] = {"app": {"considering_timeframes": ("1m", timeframe) if timeframe != "1m" else ("1m",), "debug_mode": False,
+    # `timeframe` is one label for every route, or a tuple with one label per symbol (trading symbols first, then data symbols)
+    allsyms = tuple(symbols) + tuple(data_symbols)
+    tf_of = {s: (timeframe if isinstance(timeframe, str) else timeframe[k]) for k, s in enumerate(allsyms)}
+    considering = ("1m",) + tuple(sorted({t for t in tf_of.values() if t != "1m"}))
+    it.overrides["jesse/config.py:config"] = {"app": {"considering_timeframes": considering, "debug_mode": False,
                                                       "considering_candles": tuple(("Sandbox", s) for s in tuple(symbols) + tuple(data_symbols))}, "env": {}}
     cs = Obj("CandlesState", name="store.candles", attrs={}, open_world=True)
     stored: Dict[Tuple, List] = {}
@@ -190,9 +194,9 @@ def run(repo: Repo, sim: str, symbols=("AAA-USDT", "BBB-USDT"), minutes=6, timef
         strat = Obj("Strategy", name=f"strategy-{s}", attrs={}, open_world=True)
         W.bind(strat, "_execute", lambda i, a, k, s=s: events.append(("exec", s)))
         W.bind(strat, "_terminate", lambda i, a, k, s=s: events.append(("terminate", s)))
-        routes.append(Obj("Route", name=f"route-{s}", attrs={"exchange": "Sandbox", "symbol": s, "timeframe": timeframe, "strategy": strat}, open_world=True))
-    fr = [{"exchange": "Sandbox", "symbol": s, "timeframe": timeframe} for s in symbols]
-    fd = [{"exchange": "Sandbox", "symbol": s, "timeframe": timeframe} for s in data_symbols]
+        routes.append(Obj("Route", name=f"route-{s}", attrs={"exchange": "Sandbox", "symbol": s, "timeframe": tf_of[s], "strategy": strat}, open_world=True))
+    fr = [{"exchange": "Sandbox", "symbol": s, "timeframe": tf_of[s]} for s in symbols]
+    fd = [{"exchange": "Sandbox", "symbol": s, "timeframe": tf_of[s]} for s in data_symbols]
     it.overrides["jesse/routes/__init__.py:router"] = Obj("RouterClass", name="router", attrs={
         "routes": routes, "formatted_routes": fr, "formatted_data_routes": fd, "all_formatted_routes": fr + fd}, open_world=True)
     fn = repo.func(BT, sim)
